@@ -420,6 +420,14 @@ func (p *Program) LookupType(pkgPath, name string) *types.Named {
 	return n
 }
 
+// IsGeneratedPos reports whether the position lies in a generated file.
+func (p *Program) IsGeneratedPos(pos token.Pos) bool {
+	if p.genFiles == nil {
+		p.IsGenerated(nil)
+	}
+	return pos.IsValid() && p.genFiles[p.Fset.Position(pos).Filename]
+}
+
 // IsGenerated reports whether f is declared in a generated file
 // ("// Code generated ... DO NOT EDIT."), e.g. protoc-gen-gogo output.
 func (p *Program) IsGenerated(f *ssa.Function) bool {
